@@ -26,7 +26,7 @@ def publish_raw_start(w, sm_arn, data, message_id=None, definition=None):
 
 
 def run_monitored(case, schedule=(), want=("lifecycle", "ack", "history", "surface"), seed=0, store="file", tick=1e-6,
-                  starts=None, n_engines=1, max_steps=4000, tz="UTC", split=False, orphan_retention_ms=3000, probe=None, logging=None, rerun_same_name=False, dup_replies=0, midrun_reads=0, past_expiry=0):
+                  starts=None, n_engines=1, max_steps=4000, tz="UTC", split=False, orphan_retention_ms=3000, probe=None, logging=None, rerun_same_name=False, dup_replies=0, midrun_reads=0, past_expiry=0, rest="asyncio", include_data=True):
     """
     case: dict(definition, input, oracle, type).  starts: list of dict(mode="api"|"raw"|"raw-id", input=..., name=...).
     -> dict(fails={monitor: [(bucket, detail)]}, info={...}, world closed)
@@ -40,11 +40,14 @@ def run_monitored(case, schedule=(), want=("lifecycle", "ack", "history", "surfa
     try:
         ids = ["A", "B", "C"][:n_engines]
         for i in ids:
-            w.add_engine(i)
+            if rest == "blocking":
+                w.add_engine(i, transport="blocking", rest="blocking")     # the Flask front end (served by the blocking transport)
+            else:
+                w.add_engine(i)
         H.install_workers(w, case["definition"], case.get("oracle") or {}, dup_replies=dup_replies)
         extra_create = {}
         if logging:
-            extra_create["loggingConfiguration"] = {"level": logging, "includeExecutionData": True, "destinations": [{"cloudWatchLogsLogGroup": {"logGroupArn": "arn:aws:logs:local:0123456789:log-group:x"}}]}
+            extra_create["loggingConfiguration"] = {"level": logging, "includeExecutionData": bool(include_data), "destinations": [{"cloudWatchLogsLogGroup": {"logGroupArn": "arn:aws:logs:local:0123456789:log-group:x"}}]}
         st, resp = w.create_state_machine("m1", case["definition"], type_=case.get("type", "STANDARD"), **extra_create)
         if st != 200:
             raise RuntimeError("CreateStateMachine refused a generated machine: %r" % (resp,))
